@@ -115,6 +115,38 @@ def gen(rng, tier):
             k = per if w * n <= 1100 else max(2, per // 50)
             for _ in range(k):
                 out.append(fmt_line(op, w, n, gen_case(rng, op, w, n), sig))
+    # logarithms: EVERY power b^k that fits (and its neighbours) for the bases 2 and 10 - and, for the general ilog, a few
+    # fixed bases - at every configuration up to 1100 bits (an estimate-based shortcut is wrong only at particular k)
+    for (w, n) in configs:
+        bits = w * n
+        if bits > 1100 and not thorough:
+            continue
+        M = 1 << bits
+        stepk = 1 if bits <= 1100 else 37
+        for S in ("U", "I"):
+            lim = (M >> 1) if S == "I" else M
+            for base, ops1 in ((10, ("checked_ilog10", "ilog10")), (2, ("checked_ilog2", "ilog2"))):
+                k, pw = 0, 1
+                while pw < lim:
+                    if k % stepk == 0:
+                        for v in (pw, pw - 1, pw + 1):
+                            if 0 < v < lim:
+                                out.append(fmt_line("%s.%s" % (S, ops1[0]), w, n, [v], "L"))
+                        if pw < lim:
+                            out.append(fmt_line("%s.%s" % (S, ops1[1]), w, n, [pw], "L"))
+                    k += 1
+                    pw *= base
+            for base in (3, 7, 10, 255, 256, 65537):
+                if base >= lim:
+                    continue
+                k, pw = 0, 1
+                while pw < lim:
+                    if k % (stepk * (3 if bits > 200 else 1)) == 0:
+                        for v in (pw, pw - 1):
+                            if 0 < v < lim:
+                                out.append(fmt_line("%s.checked_ilog" % S, w, n, [v, base], "LL"))
+                    k += 1
+                    pw *= base
     if thorough:
         for op, sig in OPS.items():
             if op == "U.int.iilog":
